@@ -290,6 +290,21 @@ def run_real(env: Env, case, steps=()):
         if len({id(a) for a in args}) != len(args):
             obs["fresh"] = False
     obs["counts_ctor"] = dict(counters)
+    # what the node keeps: Graph._arguments are the very Vars the callback received, _constructor the callback
+    obs["stored"] = None
+    if outs:
+        try:
+            node0 = outs[0]._op
+            for role, args in rec:
+                g = getattr(node0.attrs, role).value
+                same = g._arguments is not None and len(g._arguments) == len(args) and all(
+                    a is b for a, b in zip(g._arguments, args))
+                if not same:
+                    obs["stored"] = f"{role}: Graph._arguments are not the Vars the callback received"
+                elif g._constructor is not cbs[role]:
+                    obs["stored"] = f"{role}: Graph._constructor is not the callback"
+        except Exception as e:  # noqa: BLE001
+            obs["stored"] = f"cannot read stored graph: {type(e).__name__}: {e}"
     # ---- later steps
     if outs is not None and steps:
         node = outs[0]._op if outs else None
@@ -536,6 +551,8 @@ def compare(case, obs, m, steps):
             return f"model out_variadic {mr['ok']}, real node got {ov}"
         if res[0] == "ok" and res[1] != mr["ok"]:
             return f"model {mr['ok']} outputs, real {res[1]}"
+    if obs.get("stored"):
+        return "stored graph: " + obs["stored"]
     real_counts = {str(ids[r]): obs["counts_ctor"].get(r, 0) for r in ids}
     if real_counts != m["countsAfterCtor"]:
         return f"counters after the constructor: real={real_counts} model={m['countsAfterCtor']}"
@@ -586,7 +603,9 @@ def gen_cases(ck, info):
     rng = ck.rng
     defs, _ = defining_modules(info)
     cases = []
-    maxlen_exh = ck.pick(2, 3)
+    maxlen_exh = 3  # Loop, SequenceMap
+    maxlen_scan = ck.pick(2, 3)
+    longer = ck.pick(0, 150)  # seeded lists of length 4-5 (thorough)
 
     def lists_upto(pool, n):
         for k in range(n + 1):
@@ -600,8 +619,10 @@ def gen_cases(ck, info):
     for mod in defs.get("loop", []):
         for car in lists_upto(POOL, maxlen_exh):
             cases.append(finish_case({"mod": mod, "ctor": "loop", "lists": {"v_initial": car}}, rng))
-        for _ in range(ck.pick(60, 0)):
+        for _ in range(ck.pick(60, 300)):
             cases.append(finish_case({"mod": mod, "ctor": "loop", "lists": {"v_initial": rand_list(pool_u, 3)}}, rng))
+        for _ in range(longer):
+            cases.append(finish_case({"mod": mod, "ctor": "loop", "lists": {"v_initial": rand_list(POOL, rng.randrange(4, 6))}}, rng))
         for k in range(1, 4):
             cases.append(finish_case({"mod": mod, "ctor": "loop", "lists": {"v_initial": rand_list(POOL, k - 1) + [None]}}, rng))
         # ONNX: `cond` is a scalar; the body hands the condition it received on
@@ -625,11 +646,14 @@ def gen_cases(ck, info):
                     if all(len(d["s"]) >= 2 for d in scans):
                         yield {"mod": mod, "ctor": "scan", "lists": {"initial_state_and_scan_inputs": ops},
                                "ints": {"num_scan_inputs": m}, "axes": [1] * m}
-        for ops in lists_upto(TENSORS, maxlen_exh):
+        for ops in lists_upto(TENSORS, maxlen_scan):
             for c in scan_variants(ops):
                 cases.append(finish_case(c, rng))
         for _ in range(ck.pick(40, 0)):
             for c in scan_variants(rand_list(TENSORS, 3)):
+                cases.append(finish_case(c, rng))
+        for _ in range(longer // 3):
+            for c in scan_variants(rand_list(TENSORS, rng.randrange(4, 6))):
                 cases.append(finish_case(c, rng))
         for _ in range(ck.pick(25, 200)):  # operands that are not tensors / of unknown type
             ops = rand_list(pool_u, rng.randrange(1, 4))
@@ -641,9 +665,9 @@ def gen_cases(ck, info):
             for ex in lists_upto(TENSORS + SEQS, maxlen_exh):
                 cases.append(finish_case({"mod": mod, "ctor": "sequence_map", "singles": {"input_sequence": s},
                                           "lists": {"additional_inputs": ex}}, rng))
-        for _ in range(ck.pick(80, 0)):
+        for _ in range(longer):
             cases.append(finish_case({"mod": mod, "ctor": "sequence_map", "singles": {"input_sequence": rng.choice(SEQS)},
-                                      "lists": {"additional_inputs": rand_list(TENSORS + SEQS, 3)}}, rng))
+                                      "lists": {"additional_inputs": rand_list(TENSORS + SEQS, rng.randrange(4, 6))}}, rng))
         for _ in range(ck.pick(25, 200)):  # invalid operands
             cases.append(finish_case({"mod": mod, "ctor": "sequence_map",
                                       "singles": {"input_sequence": rng.choice(SEQS + [T(F32, (3,)), None, {"opt": SEQS[0]}])},
@@ -967,7 +991,7 @@ def _run(ck: core.Check, env: Env, info):
     })
     ck.exhaustive = False
     ck.rule = (
-        f"every ai.onnx module defining the constructor x all operand lists of length <= {ck.pick(2, 3)} over "
+        f"every ai.onnx module defining the constructor x all operand lists of length <= 3 (Scan: <= {ck.pick(2, 3)}, plus seeded length-3 lists) over "
         f"{len(POOL)} types (ranks 0-3, symbolic/unknown dims, unknown shape, sequences, optionals) "
         "[Loop: carried; Scan: tensors x every num_scan_inputs 0..len+1 x scan axes none/0/-1/1; SequenceMap: 3 "
         "sequence types x tensor/sequence extras] + seeded length-3 lists, unknown-typed and ill-kinded operands, "
